@@ -15,10 +15,13 @@ _T = "contract-based deductive verification: PyVC symbolic execution of the real
 _c("C01", "other", "Operation.backward (symbolic arity, arbitrary aliasing and prior gradients, all result kinds of backward_var) and reduce_broadcast / grad_post_process_fn are discharged deductively; "
    "whole-program exactness additionally rests on C02 and the chain-rule lemma and is cross-checked by a bounded run-time contract against the numeric derivative of the NumPy twin.",
    "DESIGN.md §6 C01, §14", "trusted: pyvc/graphdom.py NumPy axioms, abstract backward_var contract, chain rule; reals for floats; pointwise value abstraction; topological collector not yet under contract (bounded)", _T + "; bounded program catalogue")
-_c("C02", "other", "Every elementwise op/activation (own __call__/backward_var ASTs) has VJP, frame and alias contracts discharged by z3 for all real inputs; every other Operation subclass "
-   "(complete AST enumeration) is under a bounded run-time VJP contract over an enumerated catalogue, reported separately.",
-   "DESIGN.md §6 C02, §14", "trusted: contracts/derivative_table.py, identity basis in pyvc/realdom.py, NumPy kernels = mathematical namesakes, reals for floats; bounded: numeric central differences as oracle", _T + " (NRA); bounded VJP contract for kernels")
-_c("C03", "other", "Kernel-forwarding contracts of UnaryUfunc/BinaryUfunc/Sequential.__call__ for every concrete op class are discharged; value/shape/dtype agreement with NumPy over operand kinds x options is a bounded contract with NumPy as oracle.",
+_c("C02", "other", "Every elementwise op/activation (own __call__/backward_var ASTs) has VJP, frame and alias contracts discharged by z3 for all real inputs; the 16 rearrangement / joining operations "
+   "(transpose family, roll, reshape family, broadcast_to, concatenate, stack) and Sum / Mean have their VJP discharged in the index-function domain for symbolic extents and shifts (ranks and axis arguments enumerated); every other "
+   "Operation subclass (complete AST enumeration) is under a bounded run-time VJP contract over an enumerated catalogue, reported separately.",
+   "DESIGN.md §6 C02, §14", "trusted: contracts/derivative_table.py, identity basis in pyvc/realdom.py, NumPy kernels = mathematical namesakes, pyvc/idxdom.py (NumPy's definitions of the rearrangement routines over index tuples), reals for floats, "
+   "mathematical integers for shifts; bounded: numeric central differences as oracle", _T + " (NRA / LIA with proved multiplication lemma instances); bounded VJP contract for the remaining kernels")
+_c("C03", "other", "Kernel-forwarding contracts of UnaryUfunc/BinaryUfunc/Sequential.__call__ for every concrete op class are discharged; the forward of the 15 rearrangement / joining operations equals NumPy's definition of the same call "
+   "in shape and in every element for symbolic extents (C03.struct, index-function domain); value/shape/dtype agreement with NumPy over operand kinds x options is a bounded contract with NumPy as oracle.",
    "DESIGN.md §6 C03, §14", "trusted: NumPy as oracle; casting in Tensor._op and thin wrappers bounded only; known finding F9", _T + "; bounded differential contract vs NumPy")
 _c("C04", "other", "mirror_tensor and reroute_ops_through (symbolic consumer sets / operand tuples, loop invariant) discharged; NumPy-mirror claim for whole statements is a bounded per-statement contract over programs and enumerated histories.",
    "DESIGN.md §6 C04, §14", "trusted: NumPy as oracle, heap model; _in_place_op / shape.setter as wholes bounded only", _T + "; bounded history enumeration vs NumPy")
@@ -49,7 +52,7 @@ _c("C16", "other", "sliding_window_view (acceptance, shape, element identity as 
 _c("C17", "other", "tensor()/astensor()/asarray() return-as-is rules and the Tensor.__init__ gate discharged; aliasing/dtype/creation agreement with NumPy is bounded over the input lattice.",
    "DESIGN.md §6 C17, §14", "np.array/np.asarray aliasing is an axiom checked boundedly", _T + "; bounded input lattice")
 _c("C18", "other", "save/load call structure discharged with the savez/load axiom; end-to-end round trip bounded.",
-   "DESIGN.md §6 C18, §14", "trusted: np.savez/np.load round trip", _T + "; bounded round trips")
+   "DESIGN.md §6 C18, §14", "trusted: np.savez/np.load round trip; known finding F39 (load inside no_autodiff)", _T + "; bounded round trips")
 
 PENDING_REASON = "check under construction in this commit (see DESIGN.md §14 build log); not yet claimed"
 
